@@ -254,6 +254,41 @@ def m_stale_checkpoint(rec, sig):
 MATCHERS = {"stale_checkpoint_of_earlier_run_kept": m_stale_checkpoint}
 
 
+def check_two_instances(chk):
+    """two live objects on one file (outside the single-instance Lean model: direct oracle only): an object obtained by
+    resume_from_file keeps what it READ; the original object then refits and samples into the same file; the resumed object's run
+    must leave the file consistent (its own proposal next to particles weighted under that proposal)"""
+    for variant in (0, 1):
+        tmp = tempfile.mkdtemp(prefix="aspire_verif_")
+        try:
+            sess = Session(tmp, seed=23 + variant)
+            steps = []
+
+            def do(op, who):
+                sess.do(op)
+                steps.append(f"{who}: {op_wire(op)}")
+                ob = sess.observe(1)
+                if not ob["consistent"]:
+                    chk.fail("the stored proposal and configuration belong to the stored checkpoint", {"two_instances": True, "steps": list(steps)},
+                             f"after `{steps[-1]}`: file proposal version {ob['flow']}, config sampler {ob['cfg']}, checkpoint {ob['ckpt']} ({ob['why']})",
+                             {"clause": ob["why"], "two_instances": True, "model_predicts": False})
+                    return False
+                return True
+
+            ok = do(("fit", None, False), "a") and do(("sample", "smc", 1, False, 2), "a")
+            a_old = sess.a
+            ok = ok and do(("resume", 1), "r = resume_from_file")
+            r_new = sess.a
+            sess.a = a_old
+            ok = ok and do(("fit", None, False), "a") and do(("sample", "smc", 1, bool(variant), 0 if variant else 2), "a")
+            sess.a = r_new
+            ok = ok and do(("sample", "smc", None, True, 0), "r")
+            chk.count("two_instance_scenarios")
+            chk.case(None, f"two-instances-{variant}")
+        finally:
+            shutil.rmtree(tmp, ignore_errors=True)
+
+
 def run(chk: core.Check):
     r = np.random.default_rng(chk.seed + 14014)
     quick = chk.tier == "quick"
@@ -270,6 +305,16 @@ def run(chk: core.Check):
         [("fit", None, False), ("sample", "smc", 1, False, 2), ("resume", 1), ("sample", "importance", 1, True, 0), ("resume", 1), ("sample", "importance", None, True, 0)],
         [("enter", 1, True), ("fit", None, False), ("sample", "smc", None, True, 0), ("fit", None, True), ("sample", "smc", None, True, 0), ("exit",), ("resume", 1)],
         [("enter", 1, True), ("fit", None, False), ("sample", "smc", None, True, 0), ("fit", None, True), ("sample", "smc", None, False, 1), ("exit",), ("resume", 1), ("sample", "smc", None, True, 0)],
+        # the same without overwrite: a refit inside one context followed by an interrupted run
+        [("enter", 1, True), ("fit", None, False), ("sample", "smc", None, True, 0), ("fit", None, False), ("sample", "smc", None, False, 1), ("exit",), ("resume", 1), ("sample", "smc", None, True, 0)],
+        [("enter", 1, True), ("fit", None, False), ("sample", "smc", None, True, 0), ("fit", None, False), ("sample", "smc", None, False, 2), ("exit",), ("resume", 1)],
+        # the file already holds a proposal; the object is refitted; the next run on that file is interrupted after some checkpoints
+        [("fit", 1, False), ("fit", None, False), ("sample", "smc", 1, False, 2)],
+        [("fit", 1, False), ("fit", None, False), ("sample", "smc", 1, False, 1), ("resume", 1), ("sample", "smc", None, True, 0)],
+        [("fit", 1, False), ("sample", "smc", 1, True, 0), ("fit", None, False), ("sample", "smc", 1, False, 2), ("resume", 1)],
+        # a resumed object samples WITHOUT opening a new context, is interrupted again, and is resumed again
+        [("fit", None, False), ("enter", 1, True), ("sample", "smc", None, False, 2), ("exit",), ("resume", 1), ("sample", "smc", None, False, 1),
+         ("resume", 1), ("sample", "smc", None, True, 0)],
     ]
     for n in range(1, L):
         for tail in itertools.product(ALPHA_SMALL, repeat=n):
@@ -283,6 +328,7 @@ def run(chk: core.Check):
     chk.extra["sequences"] = len(seqs)
     for i in range(0, len(seqs), 100):
         check_sequences(chk, seqs[i:i + 100])
+    check_two_instances(chk)
 
     def search():
         sub = core.Check(chk.pid, chk.tier, chk.seed)
